@@ -19,7 +19,10 @@ RULE = ("vendor / class names (ASCII, non-ASCII, empty, 1 KiB, YAML- and regex-s
 NOTE = ["uuid.uuid5 is modelled over the driver's SHA-1; the harness recomputes every identifier with hashlib independently of both",
         "kconfig values with escaped quotes are outside the domain (the parser strips the outer quotes only)"]
 
-NAMES = ["nordicsemi.com", "nRF54H20_sample_root", "", "a", "é中\U0001f600", "x" * 1024, "name with space", "a.b-c_d", "UPPER", "123", "true", "a: b", "x #y", "p(1)+"]
+NAMES = ["nordicsemi.com", "nRF54H20_sample_root", "", "a", "é中\U0001f600", "x" * 1024, "name with space", "a.b-c_d", "UPPER", "123", "true", "a: b", "x #y", "p(1)+",
+         # names are names, whatever they look like: text UUIDs, hex digests, numbers, leading / trailing blanks, mixed case
+         "7d9f1e2a-4b3c-4d5e-8f60-a1b2c3d4e5f6", "7d9f1e2a4b3c4d5e8f60a1b2c3d4e5f6", "urn:uuid:7d9f1e2a-4b3c-4d5e-8f60-a1b2c3d4e5f6",
+         "{7d9f1e2a-4b3c-4d5e-8f60-a1b2c3d4e5f6}", "6ba7b810-9dad-11d1-80b4-00c04fd430c8", "0x10", " padded ", "NordicSemi.com", "0", "None", "a\\b"]
 
 
 def rfc4122_v5(ns: bytes, name: str) -> bytes:
